@@ -30,9 +30,12 @@ SPEC = dict(
          "/num /sym /expr (one symbol key with a number, symbol, expression image), /multi (2-3 keys at once), /swap "
          "({x:y, y:x}), /absent (key not in e), /identity; exprkey/subterm (key = a sub-expression of e, e.g. a whole "
          "Add term or a Mul factor), exprkey/pow (key x**b against x**(a*b): SubsVisitor's exponent path), "
-         "exprkey/identity; binder (e contains Derivative/Subs nodes, subs only). distinct = distinct op lines; "
+         "exprkey/identity; numkey/alone, numkey/with-symbols (Integer/Rational keys that occur in e as Add constant, "
+         "Add-term coefficient, Mul coefficient, exponent or function argument, alone or together with symbol keys); "
+         "binder (e contains Derivative/Subs nodes, subs only). distinct = distinct op lines; "
          "non-trivial = all. impl_stats: value_checked_exact/numeric/not_checked, *_points_*, absent_key_cases, "
          "identity_cases, modes_agree_cases (subs = xreplace = msubs = ssubs on derivative-free inputs), "
+         "number_key_cases (value under the number-key reading of docs/C11.md + four entry points eq + cache), "
          "expression_key_cases (cache, identity, certificate), expression_key_fresh_image_cases (value oracle for "
          "expression keys), binder_*_not_eq_value_checked.",
     not_covered=[
